@@ -3,7 +3,13 @@
 import json, os
 HERE = os.path.dirname(os.path.abspath(__file__))
 
-CLAIMED = {}   # filled in as checks are built: id -> dict(level_text, level_note, technique, design_ref)
+CLAIMED = {
+ "C20": dict(
+  level_text="Seeded deterministic simulation of the real biotite.application wrappers (Application, LocalApp, MSAApp, ClustalOmegaApp, MuscleApp, Muscle5App, MafftApp plus two logic-free stub subclasses) against a virtual clock, in-process scripted child processes and fake MSA tools acting on the real temp files; a reference life-cycle model decides legality/outcome of every call, and cwd / temp files / child liveness / clean-up count are checked after every operation under launch, exit-code, hang, timeout, garbage-output, missing-tree and clock-jump faults. Sampling, not proof: a clean batch is evidence over the explored seeds.",
+  level_note="Trusted: SimPopen models Popen's poll/communicate/kill semantics; fake tools act atomically at their exit instant; the life-cycle table of DESIGN.md Appendix A is the documented life cycle. External binaries themselves are stubs.",
+  technique="deterministic simulation with fault injection (virtual clock, simulated child processes, seeded schedule and faults, reference model, ddmin replay)",
+  design_ref="4.1, Appendix A"),
+}
 
 NA = {
  "C03": "pure functions of alphabet/symbols/codon table (encode/decode/translate); no schedule, clock, I/O fault or operation history for a simulator to own",
